@@ -121,6 +121,43 @@ let () =
                     | RLog (h, a, s1, e1) -> "L" ^ hex_encode h ^ ":" ^ (if a then "1" else "0") ^ ":" ^ string_of_int (int_of_z s1) ^ ":" ^ string_of_int (int_of_z e1)) r.r_trace) in
          let outs = String.concat "," (List.map (fun (i, o) -> string_of_int (int_of_nat i) ^ ":" ^ hex_encode (string_of_chars o)) r.r_outs) in
          out_s ((if tr = "" then "-" else tr) ^ " " ^ (if outs = "" then "-" else outs) ^ " " ^ string_of_int (List.length r.r_tmp_left) ^ " " ^ (match r.r_status with Exit0 -> "0" | Exit1 -> "1"))
+       | ["JOBA"; ch; cst; hosts; logs; sz; ez; nowz; gz; outp; fsl] ->
+         (* the Atlas branch of the whole command (Model/Job.v): same world as ATLAS, plus the output path and the files already in the working directory *)
+         let rec z_of_int (n : int) : z = if n = 0 then Z0 else if n > 0 then Zpos (pos_of_int n) else Zneg (pos_of_int (- n)) in
+         let int_of_z = function Z0 -> 0 | Zpos p -> int_of_pos p | Zneg p -> - (int_of_pos p) in
+         let resp_of item = match String.split_on_char ':' item with
+           | ["S"; code; body] -> HStatus (nat_of_int (int_of_string code), chars_of (hex_decode body))
+           | ["C"; sent; body] -> HCut (nat_of_int (int_of_string sent), chars_of (hex_decode body))
+           | _ -> HReset in
+         let aw = { w_challenge = (ch = "1"); w_cluster = resp_of cst;
+                    w_hosts = (if hosts = "!" then None else Some (List.map hex_decode (split_char ',' hosts)));
+                    w_logs = List.map resp_of (split_char ',' logs) } in
+         let gtbl = Hashtbl.create 16 in
+         List.iter (fun item -> match String.split_on_char ':' item with
+           | [k; v] -> Hashtbl.replace gtbl (hex_decode k) (if v = "!" then None else Some (hex_decode v)) | _ -> ()) (split_char ',' gz);
+         let gunzip b = match Hashtbl.find_opt gtbl (string_of_chars b) with Some (Some d) -> (chars_of d, REof) | _ -> ([], RErr) in
+         let tbl = Hashtbl.create 16 in
+         List.iter (fun item -> match String.split_on_char ':' item with
+           | [pth; "D"] -> Hashtbl.replace tbl (hex_decode pth) FDir
+           | [pth; "F"; mode; content] -> Hashtbl.replace tbl (hex_decode pth) (FFile (chars_of (hex_decode content), n_of_int (int_of_string mode)))
+           | _ -> ()) (split_char ',' fsl);
+         let fs0 pth = match Hashtbl.find_opt tbl pth with Some st -> st | None -> FAbsent true in
+         let out = hex_decode outp in
+         let a = { a_file = None; a_out = out; a_encrypt = false; a_keyfile = "k"; a_cfg = !c; a_regexp_given = false; a_fieldnames_given = false;
+                   a_proj = "P"; a_cluster = "C"; a_pub = "pub"; a_priv = "priv"; a_start = z_of_int (int_of_string sz); a_end = z_of_int (int_of_string ez); a_env = false } in
+         let w = { w_fs = fs0; w_stdin = None; w_rnd = []; w_encrypt = (fun _ _ -> None); w_gunzip = gunzip; w_writer = (fun _ -> Accept);
+                   w_atlas = aw; w_now = z_of_int (int_of_string nowz) } in
+         let r = job current current_consts a w in
+         let tr = String.concat "," (List.map (function RCluster a -> if a then "C1" else "C0"
+                    | RLog (h, a, s1, e1) -> "L" ^ hex_encode h ^ ":" ^ (if a then "1" else "0") ^ ":" ^ string_of_int (int_of_z s1) ^ ":" ^ string_of_int (int_of_z e1)) r.j_trace) in
+         let nh = (match aw.w_hosts with Some l -> List.length l | None -> 0) in
+         let paths = out :: List.init (nh + 1) (fun i -> out ^ "." ^ string_of_int i) in
+         let show pth = match r.j_fs pth with
+           | FFile (ct, m) -> Some (hex_encode pth ^ ":" ^ hex_encode (string_of_chars ct))
+           | _ -> None in
+         let files = List.filter_map show paths in
+         out_s ((if tr = "" then "-" else tr) ^ " " ^ (if files = [] then "-" else String.concat "," files) ^ " " ^ string_of_int (int_of_nat r.j_tmp_left)
+                ^ " " ^ (match r.j_status with Exit0 -> "0" | Exit1 -> "1"))
        | ["CLI"; bits] ->
          let b i = bits.[i] = '1' in
          let f = { f_file = b 0; f_stdin = b 1; f_out = b 2; f_encrypt = b 3; f_regexp = b 4; f_fieldnames = b 5;
@@ -137,6 +174,41 @@ let () =
          let vd = match decide_raw r with CReject n -> "reject:" ^ string_of_int (int_of_nat n) | CAccept MAtlas -> "accept:atlas" | CAccept MFile -> "accept:file" | CAccept MStdin -> "accept:stdin" in
          let e = String.concat "," (List.map (function ECreateOutput -> "out" | EKeyFile -> "key" | ENetwork -> "net" | EReadInput -> "read") (effects_raw r)) in
          out_s (vd ^ " " ^ (if e = "" then "-" else e))
+       | ["JOB"; file; outp; enc; keyf; bits; proj; cluster; pub; priv; sd; ed; fsl; stdin_d; rnd; gz] ->
+         (* the whole redact command on a small world; the redaction configuration and Encrypt are those of the last CFG request *)
+         let rec z_of_int (n : int) : z = if n = 0 then Z0 else if n > 0 then Zpos (pos_of_int n) else Zneg (pos_of_int (- n)) in
+         let path h = if h = "=" then "" else hex_decode h in
+         let tbl = Hashtbl.create 16 in
+         let order = ref [] in
+         List.iter (fun item -> match String.split_on_char ':' item with
+           | [pth; "A"] -> Hashtbl.replace tbl (path pth) (FAbsent true); order := path pth :: !order
+           | [pth; "P"] -> Hashtbl.replace tbl (path pth) (FAbsent false); order := path pth :: !order
+           | [pth; "D"] -> Hashtbl.replace tbl (path pth) FDir; order := path pth :: !order
+           | [pth; "F"; mode; content] -> Hashtbl.replace tbl (path pth) (FFile (chars_of (hex_decode content), n_of_int (int_of_string mode))); order := path pth :: !order
+           | [pth; "U"; mode; content] -> Hashtbl.replace tbl (path pth) (FUnreadable (chars_of (hex_decode content), n_of_int (int_of_string mode))); order := path pth :: !order
+           | _ -> ()) (split_char ',' fsl);
+         let fs0 pth = match Hashtbl.find_opt tbl pth with Some st -> st | None -> FAbsent true in
+         let gtbl = Hashtbl.create 16 in
+         List.iter (fun item -> match String.split_on_char ':' item with
+           | [k; e; v] -> Hashtbl.replace gtbl (hex_decode k) (chars_of (hex_decode v), (if e = "E" then REof else RErr)) | _ -> ()) (split_char ',' gz);
+         let gunzip b = match Hashtbl.find_opt gtbl (string_of_chars b) with Some r -> r | None -> remiss := true; ([], RErr) in
+         let b i = bits.[i] = '1' in
+         let a = { a_file = (if file = "!" then None else Some (path file)); a_out = hex_decode outp; a_encrypt = (enc = "1"); a_keyfile = hex_decode keyf;
+                   a_cfg = !c; a_regexp_given = b 0; a_fieldnames_given = b 1; a_proj = hex_decode proj; a_cluster = hex_decode cluster;
+                   a_pub = hex_decode pub; a_priv = hex_decode priv; a_start = z_of_int (int_of_string sd); a_end = z_of_int (int_of_string ed); a_env = b 2 } in
+         let w = { w_fs = fs0; w_stdin = (if stdin_d = "!" then None else Some (chars_of (hex_decode stdin_d)));
+                   w_rnd = List.map (fun ch -> n_of_int (Char.code ch)) (chars_of (hex_decode rnd));
+                   w_encrypt = (fun _ -> match !e with Some f -> f | None -> (fun _ -> None));
+                   w_gunzip = gunzip; w_writer = (fun _ -> Accept);
+                   w_atlas = { w_challenge = false; w_cluster = HReset; w_hosts = None; w_logs = [] }; w_now = Z0 } in
+         let r = job current current_consts a w in
+         let show pth = (if pth = "" then "=" else hex_encode pth) ^ ":" ^ (match r.j_fs pth with
+           | FAbsent true -> "A" | FAbsent false -> "P" | FDir -> "D"
+           | FFile (ct, m) -> "F:" ^ string_of_int (int_of_n m) ^ ":" ^ hex_encode (string_of_chars ct)
+           | FUnreadable (ct, m) -> "U:" ^ string_of_int (int_of_n m) ^ ":" ^ hex_encode (string_of_chars ct)) in
+         let paths = List.sort_uniq compare (a.a_out :: a.a_keyfile :: !order) in
+         out_s ((match r.j_status with Exit0 -> "0" | Exit1 -> "1") ^ " " ^ String.concat "," (List.map show paths) ^ " " ^ hex_encode (string_of_chars r.j_stdout)
+                ^ " " ^ string_of_int (List.length r.j_trace))
       | _ -> out_s "BADREQ");
       if !remiss then out_s " TABLEMISS";
       out_nl ()
